@@ -43,7 +43,10 @@ def helpers(kind):
             # levels set to zero (drained) and back, set above the initial supply, changes by zero
             [['RSET', 'r', {'a': 0}], ['D', 1], ['RSET', 'r', {'a': 2}]],
             [['D', 1], ['RSET', 'r', {'a': 0}], ['INC', 'r', {'a': 0}], ['INSTANT'], ['RSET', 'r', {'a': 3}], ['TRY', [['DEC', 'r', {'a': 0}]]]]]
-            + ([[['RSET', 'r', {'b': 0}], ['D', 1], ['RSET', 'r', {'a': 0, 'b': 1}], ['D', 1], ['RSET', 'r', {'a': 2}]]] if kind == 'res21' else []))
+            + ([[['RSET', 'r', {'b': 0}], ['D', 1], ['RSET', 'r', {'a': 0, 'b': 1}], ['D', 1], ['RSET', 'r', {'a': 2}]],
+                # ONE change that raises one level and lowers another (levels are only partially ordered)
+                [['RSET', 'r', {'a': 0}], ['D', 1], ['RSET', 'r', {'a': 2, 'b': 0}], ['D', 1], ['RSET', 'r', {'a': 1, 'b': 1}], ['D', 1], ['RSET', 'r', {'a': 2, 'b': 1}]],
+                [['D', 1], ['RSET', 'r', {'a': 0, 'b': 2}], ['D', 1], ['RSET', 'r', {'a': 3, 'b': 0}], ['D', 1], ['RSET', 'r', {'a': 2, 'b': 1}]]] if kind == 'res21' else []))
 
 
 def program(supply, users, helper):
@@ -121,7 +124,7 @@ def add(d, e, sign=1):
     return r
 
 
-def conservation(ctx, snaps, program):
+def conservation(ctx, snaps, program, books=None):
     """check the bounds at every boundary. snaps = [(k, log length, levels dict)]"""
     msgs = []
     total0 = dict(SUPPLIES[program['_supply']][1])
@@ -205,6 +208,12 @@ def conservation(ctx, snaps, program):
             if v > thi[n] - held[n]:
                 msgs.append('boundary %d: available %s=%r exceeds supply %r minus what is held %r' % (
                     k, n, v, thi[n], held[n]))
+            # no unit is bookable twice: what the supply offers plus what all shares (nested ones too) offer never exceeds the
+            # supply (a unit on its way back is offered by nobody). Not judged while an abnormally left block hands back in
+            # separately scheduled activities (their order within that time step is the library's own idiom)
+            if books and k in books and not lingering and books[k].get(n, 0) > thi[n]:
+                msgs.append('boundary %d: %s is offered %r times in total (supply %r + all shares) but only %r exist: the same units are bookable twice' % (
+                    k, n, books[k].get(n, 0), v, thi[n]))
             if msgs:
                 return msgs, waited, refused
     return msgs, waited, refused
@@ -292,15 +301,22 @@ def check_exec(program, faults=()):
     share_msgs = []
 
     share_snaps = []
+    books = {}
 
     def observe(ctx, loop, k):
         snaps.append((k, len(ctx.log), dict(ctx.objs['r'].levels), loop.time))
+        # what is bookable at this boundary: the supply's own levels plus the levels of every share handed out (nested ones too)
+        book = dict(ctx.objs['r'].levels)
+        for key, cm, amounts in getattr(ctx, 'shares', ()):
+            for n, v in dict(cm.levels).items():
+                book[n] = book.get(n, 0) + v
+        books[k] = book
         tmp = []
         share_levels(ctx, 'end of time step %r' % (loop.time,), tmp)
         share_snaps.append((loop.time, tmp))
     ctx = run_one(program, faults, observe=observe)
     snaps.append((len(ctx.trace) + 1, len(ctx.log), dict(ctx.objs['r'].levels), 'quiescence'))
-    msgs, _, _ = conservation(ctx, snaps, program)
+    msgs, _, _ = conservation(ctx, snaps, program, books)
     # (a block that is left abnormally hands back through separately scheduled activities: within that time step the share
     # may be out of bounds; what is judged is the state at the end of every time step)
     transient = []
